@@ -428,7 +428,8 @@ def classify_exc(e, tb):
     if isinstance(e, TypeError) and 'unhashable type' in str(e) and inner is not None \
             and inner.filename.endswith('language/utils.py') \
             and any(f.name == 'convert_output_data' for f in frames) \
-            and any(f.name == 'finalize' for f in frames):
+            and any(f.name in ('finalize', 'stub') or (f.name == '__call__' and f.filename.endswith('yaql_interface.py'))
+                    for f in frames):
         return 'unhashable-finalize', '%s: %s [%s]' % (type(e).__name__, e, where)
     if isinstance(e, yexc.CollectionTooLargeException):
         return 'tooLarge', '%s [%s]' % (type(e).__name__, where)
@@ -616,6 +617,120 @@ def shrink_value(real, drv, case, key):
     return cur
 
 
+# ------------------------------------------------------------------ D: one parsed statement, several kinds of context
+
+REUSE_EXPRS = ['[1, 2].select($ + 1)', '{a => [1, 2]}', '{a => 1}.keys()', '{a => 1}.values()', '[2, 1].orderBy($)', 'set(1, 2)',
+               '[1, 2, 1].groupBy($)', '[1, 2].zip([3, 4])', '$', 'dict([[[1, 2], 3]])', "'a'", '[[1, [2]]]', 'range(3)']
+
+
+def bare_context():
+    """a context with the whole standard library but without '#finalize' (the case Statement's fallback exists for)"""
+    def no_finalizer_here(x):
+        return x
+    return yaql.create_context(finalizer=no_finalizer_here)
+
+
+def observe(fn):
+    try:
+        r = fn()
+    except Exception as e:      # noqa
+        return ['exc', type(e).__name__]
+    try:
+        return ['ok', canon_sets(penc(r))]
+    except Unknown as u:
+        return ['ok', {'unknown': str(u)}]
+
+
+def run_reuse(real, res, rng, tier, hist):
+    std, bare = real.root, bare_context()
+    patterns = ['FS', 'SF', 'FSF', 'SFS', 'FFS', 'SSF', 'FS' * 3]
+    n = 0
+    for (t2l, s2l) in ALL_OPTS:
+        eng, _ = real.engine(t2l, s2l, None, True)
+        for e in REUSE_EXPRS:
+            for pat in (patterns if tier != 'quick' else rng.sample(patterns, 3)):
+                data = {'k': [1, (2, 3), {4}]}
+                st = eng(e)                         # parsed ONCE, evaluated against contexts of both kinds
+                case = dict(mode='D', expr=e, pattern=pat, opts=[t2l, s2l])
+                res.case('D' + common.digest(case), True, sample=case if n == 0 else None)
+                n += 1
+                for i, kind in enumerate(pat):
+                    root = std if kind == 'S' else bare
+                    got = observe(lambda: st.evaluate(data=data, context=root.create_child_context()))
+                    fresh = observe(lambda: eng(e).evaluate(data=data, context=root.create_child_context()))
+                    hist['D:' + got[0]] = hist.get('D:' + got[0], 0) + 1
+                    if got != fresh:
+                        res.fail('oracle', 'history-dependent-finalisation',
+                                 'statement `%s` parsed once and evaluated against contexts %s (S = standard, F = without '
+                                 '#finalize), options %s: evaluation %d gives %s, a freshly parsed statement gives %s' % (
+                                     e, pat, (t2l, s2l), i + 1, json.dumps(got)[:200], json.dumps(fresh)[:200]), case)
+                        break
+                    if kind == 'S' and got[0] == 'ok':
+                        r = st.evaluate(data=data, context=root.create_child_context())
+                        bad = census(r, t2l, s2l)
+                        if bad:
+                            res.fail('oracle', 'leftover', 'statement `%s` evaluated against contexts %s: result of evaluation %d '
+                                     'is not plain data: %s' % (e, pat, i + 1, bad), case)
+                            break
+
+
+# ------------------------------------------------------------------ E: YaqlInterface applies the same conversion
+
+IFACE_CALLS = [
+    # (receiver or NO, function, args)
+    ({'a': 1}, 'set', ('b', [1, (2, 3)])), ({'a': 1}, 'keys', ()), ({'a': [1]}, 'values', ()), ({'a': 1}, 'items', ()),
+    ([1, [2, [3]]], 'flatten', ()), ([1, 2, 1], 'toSet', ()), (None, 'list', (1, [2, 3])), (None, 'set', (1, 2)),
+    ({'a': {'b': (1, 2)}}, 'get', ('a',)), ([3, 1], 'toList', ()), ({'a': 1}, 'mergeWith', ({'b': [2]},)),
+    ([1, 2], 'zip', ([3, 4],)), ([1, 2], 'enumerate', ()), (None, 'range', (3,)), ([1, 2], 'len', ()),
+    ({'a': 1}, 'delete', ('a',)), ({'a': (1, 2)}, 'containsKey', ('a',)), ([[1, 2]], 'first', ()),
+    ({(1, 2): 3}, 'keys', ()), ([1, 2, 3], 'splitAt', (1,)), ([1, 2], 'reverse', ()), ({'a': 1}, 'len', ()),
+]
+IFACE_EXPRS = [('$1.set(b, $2)', ({'a': 1}, [1, 2])), ('{a => [1, 2]}', ()), ('[1, 2].select($)', ()), ('$1.keys()', ({'a': 1},)),
+               ('$1', ({'a': (1, {2})},)), ('set($1)', ((1, 2),)), ('$1.items()', ({'a': 1},))]
+
+
+def run_interface(real, drv, res, hist):
+    from yaql import yaql_interface
+    for (t2l, s2l) in ALL_OPTS:
+        eng, _ = real.engine(t2l, s2l, None, True)
+        for path, calls in (('stub', IFACE_CALLS), ('call', IFACE_EXPRS)):
+            for call in calls:
+                ctx = real.root.create_child_context()
+                yi = yaql_interface.YaqlInterface(ctx, eng)
+                case = dict(mode='E', path=path, call=repr(call), opts=[t2l, s2l])
+                res.case('E' + common.digest(case), True, sample=case if (t2l, s2l) == ALL_OPTS[0] and call is calls[0] else None)
+                try:
+                    if path == 'stub':
+                        recv, fn, args = call
+                        cargs = yutils.convert_input_data(args)
+                        if recv is None:
+                            raw = ctx(fn, eng)(*cargs)
+                            go = lambda: getattr(yi, fn)(*args)                       # noqa
+                        else:
+                            raw = ctx(fn, eng, yutils.convert_input_data(recv))(*cargs)
+                            go = lambda: getattr(yi.on(yutils.convert_input_data(recv)), fn)(*args)   # noqa
+                    else:
+                        expr, args = call
+                        c2 = ctx.create_child_context()
+                        for i, a in enumerate(yutils.convert_input_data(args)):
+                            c2['$' + str(i + 1)] = a
+                        e0, _ = real.engine(t2l, s2l, None, True, conv_out=False)
+                        raw = e0(expr).evaluate(context=c2)
+                        go = lambda: yi(expr, *args)                                  # noqa
+                    raw_j = penc(raw)
+                except Exception as e:      # noqa: the call itself does not work: nothing to convert
+                    hist['E:call-error'] = hist.get('E:call-error', 0) + 1
+                    hist.setdefault('E_errors', []).append('%s: %r' % (call, e)) if len(hist.get('E_errors', [])) < 5 else None
+                    continue
+                try:
+                    out = ('ok', go())
+                except Exception as e:      # noqa
+                    out = ('exc',) + classify_exc(e, sys.exc_info()[2])
+                m = drv.ask({'p': 'C10', 'cases': [{'op': 'out', 't2l': t2l, 's2l': s2l, 'lim': None, 'v': raw_j}]})['res'][0] if drv else None
+                res.traces += 1 if m is not None else 0
+                judge(res, dict(case), raw_j, out, m, t2l, s2l, None, hist)
+
+
 def run(env, res):
     drv = env['driver']
     tier = env['tier']
@@ -630,7 +745,12 @@ def run(env, res):
                 'evaluates (C)' % (len(ATOMS), len(TEMPLATES)))
     if env['replay']:
         rp = json.load(open(env['replay']))
-        run_case(real, drv, res, rp['case'], hist)
+        if rp['case'].get('mode') == 'D':
+            run_reuse(real, res, rng, 'thorough', hist)
+        elif rp['case'].get('mode') == 'E':
+            run_interface(real, drv, res, hist)
+        else:
+            run_case(real, drv, res, rp['case'], hist)
         res.case(common.digest(rp['case']), True, sample=rp['case'])
         res.extra['histogram'] = hist
         return res
@@ -680,11 +800,13 @@ def run(env, res):
         r = run_case(real, drv, res, case, hist)
         evaluated += r is not None
         after(case, 'C', r is not None, e if i < 2 else None)
+    run_reuse(real, res, rng, tier, hist)
+    run_interface(real, drv, res, hist)
     # shrink the first failure of every non-known key (values only)
     known = {k['key'] for k in common.known_findings() if k['property'] == ID and k.get('status') == 'known'}
     seen = set()
     for f in list(res.failures):
-        if f.key in known or f.key in seen or f.replay.get('mode') == 'C':
+        if f.key in known or f.key in seen or f.replay.get('mode') in ('C', 'D', 'E'):
             continue
         seen.add(f.key)
         try:
